@@ -8,6 +8,28 @@ CHECKS = {
     technique="Coq proof (refinement search=scan, induction) + model/implementation correspondence at exact rationals",
     ref="DESIGN.md section 7 C01"),
 }
+CHECKS.update({
+ "C05": dict(
+    text="Proof (Coq, axiom-free, unbounded): a book-keeping invariant (counters parallel to weights, labels a restricted-growth sequence ending at the category count, counters = label histogram, sample counter = number of labels) is established by fit and preserved by partial_fit for every kernel, hence holds in every state reachable by any sequence of calls with any batch sizes. Tied to /repo by the exact correspondence of histories (snapshots after every call); the invariant is also evaluated on implementation snapshots of FusionART and its channels, DualVigilanceART, TopoART, CVIART, iCVIFuzzyART, SimpleARTMAP/ARTMAP sides (failing-input search; no theorem covers those estimators' own loops yet).",
+    note="Trusted: Coq kernel+vm_compute, hand model + correspondence; single-epoch calls; compound estimators covered by the implementation-side oracle only.",
+    technique="Coq proof (invariant by induction over call histories) + model/implementation correspondence",
+    ref="DESIGN.md section 7 C05"),
+ "C06": dict(
+    text="Proof (Coq, axiom-free, unbounded): two consecutive partial_fit calls equal one on the concatenation (whole state), hence any partition into non-empty batches from a fresh estimator equals one fit; fit on a used estimator equals fit on a fresh one with the same hyper-parameters. Tied to /repo by the exact correspondence of histories; relations between two real runs (batches vs fit, re-fit vs fresh, read-only interleaving incl. deepcopy/pickle/get_params) are searched on elementary and compound estimators.",
+    note="Trusted: as C05. Theorems are for BaseART-derived elementary estimators (every kernel); compound estimators are covered by the implementation-side relations. Known finding: TopoART.partial_fit never prunes.",
+    technique="Coq proof (refinement to a labels-free loop, induction over batch lists) + correspondence + two-run relations",
+    ref="DESIGN.md section 7 C06"),
+ "C07": dict(
+    text="Proof (Coq, axiom-free): the model makes the overwrite of the vigilance by match tracking explicit and restores it as the code does; the step, fit and partial_fit theorems show the vigilance after the call equals the one before on every exit path, for every kernel/mode/epsilon/veto. Correspondence compares params and the vigilance-in-force log after every call; all params dicts of nested modules are compared before/after each call on the implementation for compound estimators.",
+    note="Trusted: as C05; exceptions raised by a user reset function are out of scope.",
+    technique="Coq proof (case analysis on exit paths + induction) + correspondence",
+    ref="DESIGN.md section 7 C07"),
+ "C08": dict(
+    text="Proof (Coq, axiom-free): predict is the row-wise map of step_pred (hence permutation/batching/repetition invariance), step_pred returns the oldest maximiser of the activations and is in range; purity by construction of the model and checked on the implementation by full snapshots before/after. Correspondence: returned labels on trained models.",
+    note="Trusted: as C05. Label-map carrying estimators (DualVigilance, ARTMAP family, DeepARTMAP) are covered by the implementation-side oracle here and by C09/C12/C13 models.",
+    technique="Coq proof + correspondence",
+    ref="DESIGN.md section 7 C08"),
+})
 NOT_YET = {}
 def main():
     props = [json.loads(l) for l in open(os.path.join(V, "properties.jsonl"))]
